@@ -58,11 +58,11 @@ def variant_atoms(mid, variant):
         return []
     out = [a.clone() for a in mid]
     if variant == 'ALA':
-        out = [a for a in out if a.name in gen.BACKBONE + ('CB',)]
+        out = [a for a in out if a.name in gen.BACKBONE + ('CB', 'OXT')]
         for a in out:
             a.resname = 'ALA'
     elif variant == 'ASPnoCG':
-        out = [a for a in out if a.name in gen.BACKBONE + ('CB',)]
+        out = [a for a in out if a.name in gen.BACKBONE + ('CB', 'OXT')]
     elif variant == 'ASPs':
         for a in out:
             if a.name in ('CG', 'OD1', 'OD2'):
@@ -74,8 +74,29 @@ def variant_atoms(mid, variant):
 
 def build(case, seed=0):
     pre, mid, post, lys = base_parts()
+    pos = case.get('pos', 'middle')
+    if pos == 'first':      # the varying residue is the N-terminal residue of the chain
+        pre = []
+    elif pos == 'last':     # ... or the C-terminal one (every variant carries OXT)
+        post = []
+        from . import c01
+        mid = c01.add_oxt(mid)
     items = []
-    if case['kind'] == 'alt':
+    if case['kind'] == 'alt-atom':
+        # alternate locations on one single atom of the varying residue (all other atoms common)
+        items += [a.clone() for a in pre]
+        for a in mid:
+            if a.name == case['atom']:
+                for q, tag in enumerate(case['tags']):
+                    b = a.clone()
+                    b.alt = tag
+                    b.x += 150 * q
+                    b.y -= 120 * q
+                    items.append(b)
+            else:
+                items.append(a.clone())
+        items += [a.clone() for a in post] + ['TER\n'] + [a.clone() for a in lys] + ['TER\n']
+    elif case['kind'] == 'alt':
         items += [a.clone() for a in pre]
         common_backbone = case.get('partial', False)
         if common_backbone:
@@ -165,7 +186,43 @@ def check_completion(names, own, mol):
     return v
 
 
+def check_census(mol):
+    """Every conformation must show the census (C01 reference automaton) of the atoms it contains after completion."""
+    from . import c01
+    v = []
+    for name in mol.conformation_names:
+        conf = mol.conformations[name]
+        items, last = [], None
+        heavy = [a for a in conf.atoms if a.element != 'H']
+        heavy.sort(key=lambda a: (a.chain_id, a.res_num, a.icode, a.name not in ('N',), a.name))
+        for a in heavy:
+            if last is not None and a.chain_id != last:
+                items.append('TER\n')
+            last = a.chain_id
+            items.append(gen.A('ATOM  ' if a.type == 'atom' else 'HETATM', '    0', gen.name4(a.name, a.element), ' ', a.res_name,
+                               a.chain_id if a.chain_id != '_' else ' ', a.res_num, a.icode or ' ', int(round(a.x * 1000)),
+                               int(round(a.y * 1000)), int(round(a.z * 1000))))
+        exp, info, _, _ = c01.census(items)
+        want = collections.Counter(c01.key4(g) for g in exp)
+        got = collections.Counter(c01.key4(g) for g in c01.observed(mol, name))
+        for k in (want - got):
+            v.append(('conformation-census/missing/%s' % k[3], '%s: %s expected from the atoms of the conformation' % (name, k)))
+        for k in (got - want):
+            v.append(('conformation-census/spurious/%s' % k[3], '%s: %s not expected from the atoms of the conformation' % (name, k)))
+    return v
+
+
 FIELDS = ('pka', 'energy_volume', 'num_volume', 'energy_local', 'num_local', 'buried')
+
+
+def site_key(g):
+    """Identity of a group across conformations.  The amino / carboxyl terminus of a residue is the same site whatever side
+    chain the residue carries in a conformation (alt-loc point mutant), so its residue name is not part of the identity."""
+    if g['residue_type'] in ('N+', 'C-'):
+        k = g['key'].split(':')
+        k[2] = '*'
+        return ':'.join(k)
+    return g['key']
 
 
 def check_average(rec, parsed, tol=1e-9):
@@ -176,12 +233,12 @@ def check_average(rec, parsed, tol=1e-9):
     for n in names:
         for g in rec['confs'][n]['groups']:
             if g['use']:
-                per.setdefault(g['key'], []).append((n, g))
+                per.setdefault(site_key(g), []).append((n, g))
     avr = collections.Counter()
     avr_by = {}
     for g in rec['confs']['AVR']['groups']:
-        avr[g['key']] += 1
-        avr_by[g['key']] = g
+        avr[site_key(g)] += 1
+        avr_by[site_key(g)] = g
     for key, occ in per.items():
         nconf = len(occ)
         situation = 'in-all' if nconf == len(names) else ('first-only' if occ[0][0] == names[0] and nconf == 1 else
@@ -245,6 +302,18 @@ def layouts(tier):
                 cases.append(dict(kind='alt', layout=list(zip(tags, vs))))
                 if all(x in ('ASP', 'ASPs') for x in vs) and k > 1:
                     cases.append(dict(kind='alt', layout=list(zip(tags, vs)), partial=True))
+    # the varying residue at the N- and at the C-terminus of the chain (point mutants included)
+    for pos in ('first', 'last'):
+        for tags in ((' ',), ('A', 'B'), ('B', 'C'), ('1', '2'), ('A', 'B', 'C')):
+            for vs in itertools.product(('ASP', 'ASPs', 'ALA'), repeat=len(tags)):
+                cases.append(dict(kind='alt', layout=list(zip(tags, vs)), pos=pos))
+        for nums in ((1, 2), (1, 2, 3)):
+            for vs in itertools.product(('ASP', 'ALA', 'ASPnoCG'), repeat=len(nums)):
+                cases.append(dict(kind='model', layout=list(zip(nums, vs)), pos=pos))
+    for tags in (('A', 'B'), ('B', 'C'), ('A', 'B', 'C')):
+        for pos in ('first', 'middle', 'last'):
+            cases.append(dict(kind='alt-atom', tags=list(tags), pos=pos, atom='N'))
+            cases.append(dict(kind='alt-atom', tags=list(tags), pos=pos, atom='OXT' if pos == 'last' else 'CG'))
     mv = VARIANTS + ('absent',)
     for nums in ((1,), (1, 2), (2, 5), (1, 10), (1, 2, 3)):
         if tier == 'quick' and nums == (2, 5):
@@ -285,7 +354,7 @@ def plan(tier, seed):
 def run_case(case, ctx, acc):
     k = case['kind']
     viols = []
-    if k in ('alt', 'model'):
+    if k in ('alt', 'model', 'alt-atom'):
         s = build(case, ctx.seed)
         text = gen.to_text(s)
         mol = pk.run(text, write=True)
@@ -299,6 +368,7 @@ def run_case(case, ctx, acc):
         else:
             viols += check_completion(names, own, mol)
         viols += check_average(rec, pk.parse_pka(mol._pka_text))
+        viols += check_census(mol)
         if len(names) == 1:
             only_conf = dict(rec['confs'][names[0]])
             only_conf['groups'] = [g for g in only_conf['groups'] if g['use']]
